@@ -480,6 +480,9 @@ def ecc_one_curve(ctx, H, I, ECC, kf, ec, c, r, round_):
                 imp("openssh-private", "scalar/" + lab, kf.openssh_private_encode(dict(n1, d=dv)), valid=X, what="scalar-out-of-range", stmt=OR)
         # private and public halves of two different keys
         mixes = [("public-of-another-key", dict(n1, x=n2["x"], y=n2["y"])), ("public-negated", dict(n1, y=p - y)), ("public-is-generator", dict(n1, x=c.Gx, y=c.Gy))]
+        z0 = ec.w_lift_x(c, 0, 0)
+        if z0 is not None:              # a valid point whose x is 0 (P-192, P-256, P-384, P-521 have one)
+            mixes += [("public-x-is-0", dict(n1, x=0, y=z0[1])), ("public-x-is-0-negated", dict(n1, x=0, y=p - z0[1]))]
         for lab, nums in mixes:
             for fmt, blob in (("rfc5915-der", kf.ec_sec1_private_der(nums)), ("rfc5915-pem", pem(kf, kf.ec_sec1_private_der(nums), "EC PRIVATE KEY")),
                               ("pkcs8-der", kf.ec_pkcs8_der(nums)), ("rfc5915-der-compressed-public", kf.ec_sec1_private_der(nums, compressed=True))):
@@ -566,6 +569,11 @@ def ecc_one_curve(ctx, H, I, ECC, kf, ec, c, r, round_):
                 what="openssh-public-section-mismatch", stmt=MM)
             imp("openssh-private", "mismatch/private-section-public-of-another-key", openssh_private_custom(kf, pub_of(n2), inner(pub2, s1 + pub2)), valid=X,
                 what="openssh-private-section-point-vs-seed-mismatch", stmt=MM)
+            for lab0, P0 in (("order-2-point", (0, p - 1)), ("neutral-point", (0, 1))):
+                pub0 = ec.ed_encode_point(c, P0)
+                imp("openssh-private", "mismatch/private-section-public-is-" + lab0,
+                    openssh_private_custom(kf, pub_of(n1, x=P0[0], y=P0[1]), inner(pub0, s1 + pub0)), valid=X,
+                    what="openssh-private-section-point-vs-seed-mismatch", stmt=MM)
             imp("openssh-private", "mismatch/only-the-copy-after-the-seed-differs", openssh_private_custom(kf, pub_of(n1), inner(pub1, s1 + pub2)), valid=X,
                 what="openssh-ed25519-trailing-public-copy-mismatch", stmt=MM)
             bad = cases[0][1] if cases and cases[0][0] == "y-without-x" else None
